@@ -25,7 +25,15 @@ var (
 
 // EnsureRules registers the embedded ruleguard checkers (once per process).
 func EnsureRules() error {
-	rulesOnce.Do(func() { rulesErr = checkers.InitEmbeddedRules() })
+	rulesOnce.Do(func() {
+		// the analyzer package (linked into vh) may already have registered the embedded rules
+		for _, info := range linter.GetCheckersInfo() {
+			if info.EmbeddedRuleguard {
+				return
+			}
+		}
+		rulesErr = checkers.InitEmbeddedRules()
+	})
 	return rulesErr
 }
 
